@@ -295,7 +295,7 @@ def run(tier, seed):
              '64-bit hash of a sweep block) and checked against the executable specification.  Sweep blocks: every value of int8/uint8/int16/uint16 '
              'for the unary functions (signed floor/prev/roundPowerOfTwo, powerOfTwoBelow/Above/Nearest and mask: the non-negative half, negative '
              'arguments are outside the documented domain); x every multiple 1..127/255 for the 8-bit types; for the 16-bit types the 2^16 x 2^16 '
-             'product is SUBSAMPLED on the multiple axis, deterministically (1..16 [thorough: 1..1024], all 2^k, 2^k±1 for k in {5,8,11,14,15} [all k], 100,255,256,257,1000,10000, max, '
+             'product is SUBSAMPLED on the multiple axis, deterministically (1..16 [thorough: 1..256], all 2^k, 2^k±1 for k in {5,8,11,14,15} [all k], 100,255,256,257,1000,10000, max, '
              'max-1, max/2, max/2+1, max/3) plus 6 [256] seeded ones, all 2^16 sources each; every findNSB count 1..w+1; every rotate count 0..w; every '
              'bit range (first,count) for 8 bit and a deterministic subset [thorough: all] for 16 bit; all 2^16 uint8 pairs and all 2^24 uint8 triples '
              'of bitfieldInterleave, all 2^16 bitfieldDeinterleave(uint16); 96 [thorough: all 65536] high halves x 2^16 for interleave(uint8 x4), '
